@@ -721,3 +721,58 @@ theorem newGraph_toBool_perm {svcs svcs' : List Svc} (dis : List String) (hs : N
       exact children_adjOf_depsPerm he hdm x
 
 end CV.Det
+
+/-! ### in-place update while ranging; first error while ranging -/
+namespace CV.Det
+open CV CV.Val
+variable {α ε : Type}
+
+theorem put_middle (k : String) (x v : α) (l₁ l₂ : AL α) (h : k ∉ akeys l₁) :
+    put k x (l₁ ++ (k, v) :: l₂) = l₁ ++ (k, x) :: l₂ := by
+  induction l₁ with
+  | nil => simp [put]
+  | cons hd tl ih =>
+    obtain ⟨k', v'⟩ := hd
+    simp only [akeys, List.map_cons, List.mem_cons, not_or] at h
+    simp only [List.cons_append, put]
+    split
+    · next heq => exact absurd heq h.1
+    · rw [ih h.2]
+
+theorem rangeUpdate_aux (f : String → α → α) (pre post : AL α) (hn : (akeys (pre ++ post)).Nodup) :
+    post.foldl (fun acc kv => put kv.1 (f kv.1 kv.2) acc) (pre.map (fun kv => (kv.1, f kv.1 kv.2)) ++ post) =
+      (pre ++ post).map (fun kv => (kv.1, f kv.1 kv.2)) := by
+  induction post generalizing pre with
+  | nil => simp
+  | cons hd tl ih =>
+    obtain ⟨k, v⟩ := hd
+    simp only [List.foldl_cons]
+    have hk : k ∉ akeys (pre.map (fun kv => (kv.1, f kv.1 kv.2))) := by
+      simp only [akeys, List.map_append, List.map_cons, List.map_map] at hn ⊢
+      have := (List.nodup_append.mp hn).2.2
+      intro hmem
+      simp only [List.mem_map, Function.comp] at hmem
+      obtain ⟨a, ha, rfl⟩ := hmem
+      exact this a.1 (List.mem_map.mpr ⟨a, ha, rfl⟩) a.1 (by simp) rfl
+    rw [put_middle k (f k v) v _ tl hk]
+    have := ih (pre ++ [(k, v)]) (by simpa [List.append_assoc] using hn)
+    simpa [List.append_assoc] using this
+
+/-- with distinct keys, updating a map in place while ranging it is a `map` over its entries … -/
+theorem rangeUpdate_eq_map (f : String → α → α) (m : AL α) (hn : (akeys m).Nodup) :
+    rangeUpdate f m = m.map (fun kv => (kv.1, f kv.1 kv.2)) := by
+  have := rangeUpdate_aux f [] m (by simpa using hn)
+  simpa [rangeUpdate] using this
+
+theorem rangeCheck_isSome (f : String → α → Option ε) (m : AL α) :
+    (rangeCheck f m).isSome = m.any (fun kv => (f kv.1 kv.2).isSome) := by
+  induction m with
+  | nil => rfl
+  | cons hd tl ih =>
+    obtain ⟨k, v⟩ := hd
+    simp only [rangeCheck, List.any_cons]
+    cases f k v with
+    | some e => simp
+    | none => simpa using ih
+
+end CV.Det
